@@ -220,6 +220,18 @@ class Ctx:
         self.known_ids = {f['id'] for f in self.known['findings'] if f['property'] == prop}
         self.known_hit = collections.Counter()
         self.max_rel_dev = 0.0
+        # tie to the source text: modules of the tree under test whose syntax differs from the fingerprints the models were last
+        # validated against (tools/anchors.py).  Never a verdict; it only deepens the quick tier's exploration (budget()).
+        self.drift = []
+        try:
+            sys.path.insert(0, os.path.join(VERIF, 'tools'))
+            import anchors
+            self.drift = anchors.drift(os.environ.get('VERIF_REPO', '/repo'))
+        except Exception:
+            self.drift = []
+        if os.environ.get('VERIF_ESCALATE'):
+            self.drift = self.drift or ['<forced by VERIF_ESCALATE>']
+        self.extra['source_drift'] = self.drift
 
     # -- bookkeeping -------------------------------------------------------------------------
     def quick(self):
@@ -228,8 +240,12 @@ class Ctx:
     # thorough-tier multiplier for the properties whose cases are cheap (keeps every thorough run at 1-7 minutes)
     THOROUGH_SCALE = dict(C01=3, C02=5, C03=5, C05=4, C08=4, C09=4, C10=4, C12=5, C13=3, C14=4, C17=4, C18=5, C19=4, C20=2)
 
+    DRIFT_SCALE = 4   # quick tier on a tree whose source text drifted from the recorded fingerprints
+
     def budget(self, quick, thorough):
         if self.tier == 'quick':
+            if self.drift and isinstance(quick, int) and isinstance(thorough, int) and thorough >= 50 and quick >= 10:
+                return min(thorough, quick * self.DRIFT_SCALE)
             return quick
         k = self.THOROUGH_SCALE.get(self.prop, 1)
         return thorough * k if isinstance(thorough, int) and thorough >= 50 else thorough
